@@ -212,6 +212,33 @@ def h_rooms_codec(l0: int, l1: int, l2: int, l3: int, l4: int, l5: int, v0: int,
     return pos == len(f[0]) and pzpr.rooms_from_borders(H, W, vb, hb) == canon
 
 
+def h_heyawake_rect(cut: int, vertical: bool, c0: int, c1: int) -> bool:
+    """
+    heyawake's one-argument rectangular form [(y0, x0, y1, x1, clue), ...]: the board cut into two rectangles (or left whole),
+    clues symbolic incl. 0 and 'no clue': the URL is the one the (rooms, clues) form gives and decodes to those rooms and clues
+    pre: 0 <= cut <= 3 and -1 <= c0 <= 17 and -1 <= c1 <= 2
+    post: _
+    """
+    m = _mod("heyawake")
+    if vertical:
+        if cut >= W:
+            return True
+        rects = [(0, 0, H, W, c0)] if cut == 0 else [(0, 0, H, cut, c0), (0, cut, H, W, c1)]
+    else:
+        if cut >= H:
+            return True
+        rects = [(0, 0, H, W, c0)] if cut == 0 else [(0, 0, cut, W, c0), (cut, 0, H, W, c1)]
+    rooms = [[(y, x) for y in range(y0, y1) for x in range(x0, x1)] for (y0, x0, y1, x1, _) in rects]
+    clues = [r[4] for r in rects]
+    url = m.serialize_heyawake(H, W, rects)
+    if url != m.serialize_heyawake(H, W, rooms, clues):
+        return False
+    back = m.deserialize_heyawake(url)
+    if back is None or back[0] != H or back[1] != W:
+        return False
+    return {tuple(sorted(r)): v for r, v in zip(back[2][0], back[2][1])} == {tuple(sorted(r)): v for r, v in zip(rooms, clues)}
+
+
 def h_legacy_segmentation(l0: int, l1: int, l2: int, l3: int, l4: int, l5: int) -> bool:
     """
     util.encode_grid_segmentation == Rooms combinator body on the same partition; star_battle / aquarium URLs
